@@ -199,9 +199,47 @@ def run_case(case):
             run("notebook", lambda c: pp.pretty_print_notebook(local, c))
             if len(on) < 6 and dec:
                 nt = True
+    if kind == "nb" and conf["rot"] % 4 == 0:
+        cli_clause(out, case, conf, esc)
     out.nontrivial = nt
     out.ntkey = [case.get("a") or case.get("base"), case.get("b") or case.get("local"), case.get("remote"), conf]
     return out
+
+
+def cli_clause(out, case, conf, esc):
+    """The same through the commands: `nbdiff [flags] a b` and `nbshow [flags] a` exit 0, and --no-color output has no ESC[."""
+    import os
+    import nbformat
+    from nbdime import nbdiffapp, nbshowapp
+    from .c01 import cli_env, _workdir
+    d = _workdir()
+    fa, fb = os.path.join(d, "a.ipynb"), os.path.join(d, "b.ipynb")
+    nbformat.write(to_nb(case["a"]), fa)
+    nbformat.write(to_nb(case["b"]), fb)
+    on = [c for c, f in zip(CATS, conf["flags"]) if f]
+    flags = []
+    if 0 < len(on) < 6:
+        flags = ["--" + c for c in on]
+    common = flags + ([] if conf["renderer"] == "git" else ["--no-git"] + ([] if conf["renderer"] == "diff" else ["--no-use-diff"]))
+    dflags = common + ([] if conf["use_color"] else ["--no-color"]) + (["--color-words"] if conf["color_words"] else [])
+    detail = {"flags": dflags}
+    for prog, main, argv in (("nbdiff", nbdiffapp.main, dflags + [fa, fb]), ("nbshow", nbshowapp.main, flags + [fa])):
+        out.count("cli_runs")
+        try:
+            with cli_env(prog) as buf:
+                rc = main(argv)
+            text = buf.getvalue()
+        except BaseException as e:
+            if isinstance(e, KeyboardInterrupt):
+                raise
+            out.fail_exc(prog + "_command_returns", e, detail=detail)
+            continue
+        finally:
+            reset_state()
+        if rc != 0:
+            out.fail(prog + "_command_returns", "nonzero_exit", "status %r" % (rc,), detail=detail)
+        if prog == "nbdiff" and not conf["use_color"] and esc.search(text):
+            out.fail("nbdiff_no_ansi_when_colour_off", "ansi_escape_in_output", detail=detail)
 
 
 DISCRIMINATORS = {}
